@@ -60,6 +60,11 @@ CHECKS = {
    note="Trusted: TLC, bash 5.2.15 as the authority for \"matches\" (72 extglob texts on which bash deviates from its documented semantics are excluded by the audit), C.UTF-8 code-point order. "
         "Pattern texts whose meaning POSIX leaves unspecified (WellDefined = FALSE) are not judged.",
    ref="DESIGN.md section 6 C08, Appendix F"),
+ "C06": dict(level=MC, thorough=True, tech="TLA+ ParamOps.tla (substring, prefix/suffix removal stated declaratively over Glob.tla's Match, replacement, case modification, default/assign/alternative/error operators) evaluated exhaustively by TLC; every (value, operator) pair replayed in brush with bash audit",
+   text="ParamOps.tla defines each operator's result; TLC evaluates every value of <= 3 characters (blanks, newline, glob character, multi-byte) x every operator instance (offsets/lengths over negative, zero, "
+        "in-range and out-of-range integers; every pattern of <= 2 tokens) and checks the declarative shortest/longest clause (RemovalSound) and SubstrSound on every value; the 112k results are compared with the real shell's.",
+   note="Trusted: TLC, bash 5.2.15 (0 disagreements with the model on the enumerated domain), C.UTF-8. Not yet in the spec: ${!v}, ${!a[@]}, array/positional slicing, @-transformations (see C13 for @Q), arithmetic-expression offsets.",
+   ref="DESIGN.md section 6 C06"),
 }
 PENDING_REASON = "check not built yet in this round (planned, see DESIGN.md section 12); no claim is made"
 
